@@ -121,18 +121,16 @@ Theorem find_total_from_any_state g x fuel seen n :
 Proof. exact (gfind_terminates g x fuel seen n). Qed.
 Print Assumptions find_total_from_any_state.
 
-(* hasTag / hasTagPrefix (expr/method.go) still recurse through bases and user types
-   without a guard: they terminate when Extend is well founded ... *)
-Theorem hastag_fuel_sufficient_partial has bases user rk :
-  ranked bases user rk -> forall fuel n, rk n < fuel -> ghastag has bases user fuel n <> None.
-Proof. exact (ghastag_terminates has bases user rk). Qed.
-Print Assumptions hastag_fuel_sufficient_partial.
-
-(* ... and not on a type that extends itself (finding fatal:stack-overflow in expr.hasTag) *)
-Theorem hastag_extend_cycle_diverges_refuted :
-  exists has bases user n, forall fuel, ghastag has bases user fuel n = None.
-Proof. exists (fun _ => false), (fun _ => [0]), (fun _ => None), 0. exact ghastag_diverges_selfext. Qed.
-Print Assumptions hastag_extend_cycle_diverges_refuted.
+(* hasTag / hasTagPrefix (expr/method.go), TaggedAttribute and walkAttribute
+   (expr/attribute.go) carry a visited set too: they terminate on every graph of bases,
+   references and user types (Full: replaces hastag_fuel_sufficient_partial /
+   hastag_extend_cycle_diverges_refuted of the code before the guards) *)
+Theorem hastag_fuel_sufficient has bases user N :
+  (forall n, N <= n -> bases n = [] /\ user n = None) ->
+  forall fuel seen n, unvis N seen < fuel ->
+  exists s r, ghastag has bases user fuel seen n = Some (s, r) /\ incl seen s.
+Proof. exact (ghastag_terminates has bases user N). Qed.
+Print Assumptions hastag_fuel_sufficient.
 
 (* ---- Part 3: misplaced calls are reported ---- *)
 
@@ -201,6 +199,11 @@ Proof. exact tag_design_rejected. Qed.
 
 Example dangling_required_under_map_rejected : validate reqmap_design = [ERequired 3].
 Proof. exact reqmap_rejected. Qed.
+
+(* a type that extends itself: hasTag answers "no" after one step *)
+Example hastag_on_self_extend :
+  ghastag (fun _ => false) (fun n => if Nat.eqb n 0 then [0] else []) (fun _ => None) 2 [] 0 = Some ([0], false).
+Proof. exact ghastag_selfext. Qed.
 
 (* A extends B, B extends A: Find answers "not found" for a name neither has *)
 Example find_on_mutual_extend : exists s, gfind mutext_graph (S (List.length mutext_graph)) [] 0 7 = Some (s, None).
